@@ -994,6 +994,8 @@ func main() {
 		runConc(os.Args[2])
 	case "stress":
 		runStress(os.Args[2:])
+	case "bigimport":
+		runBigImport(os.Args[2:])
 	default:
 		fmt.Fprintln(os.Stderr, "unknown mode")
 		os.Exit(2)
